@@ -1402,10 +1402,16 @@ def _check_optional_tokens(ctx, fi: FuncInfo, res: RuleResult):
     where = [fi] + [ctx.cg.funcs[q] for q in ctx.cg.closure([fi.fq]) if ctx.cg.funcs[q].module.name == fi.module.name and q != fi.fq
                     and (annotation_name(ctx.cg.funcs[q].node.returns) or "") == "str"]
     outer_fi = fi
-    for fi, n in [(f_, n_) for f_ in where for n_ in own_walk(f_.node)]:
-        if not (isinstance(n, ast.Assign) and isinstance(n.value, ast.IfExp) and flatten_template(ctx, fi, n.value.body) is not None):
-            continue
-        body, test, orelse = n.value.body, n.value.test, n.value.orelse
+    cands = []
+    for f_ in where:
+        for n_ in own_walk(f_.node):
+            if isinstance(n_, ast.Assign) and isinstance(n_.value, ast.IfExp) and flatten_template(ctx, f_, n_.value.body) is not None:
+                cands.append((f_, n_, n_.value.body, n_.value.test, n_.value.orelse))
+            elif isinstance(n_, ast.If) and not n_.orelse and len(n_.body) == 1 and isinstance(n_.body[0], ast.AugAssign) and isinstance(n_.body[0].op, ast.Add) \
+                    and isinstance(n_.body[0].target, ast.Name) and flatten_template(ctx, f_, n_.body[0].value) is not None:
+                # statement form:  v = attrs.get(KEY) ; if <guard on v>: text += f" KW={v}"   (nothing is added otherwise)
+                cands.append((f_, n_, n_.body[0].value, n_.test, ast.Constant("")))
+    for fi, n, body, test, orelse in cands:
         lead, _ = _fstring_parts(body, ctx, fi)
         if not (lead.startswith(" ") and lead.endswith("=")):
             continue
@@ -1416,6 +1422,13 @@ def _check_optional_tokens(ctx, fi: FuncInfo, res: RuleResult):
             if isinstance(x, ast.NamedExpr) and isinstance(x.value, ast.Call) and isinstance(x.value.func, ast.Attribute) and x.value.func.attr == "get" and x.value.args:
                 key = try_const(ctx, fi, x.value.args[0])
                 var = x.target.id
+        if var is None:
+            # the value fetched by a statement of its own: the one name the guard reads, defined once as <record>.get(KEY)
+            from .common import single_def as _sd
+            for nm_ in sorted({x.id for x in ast.walk(test) if isinstance(x, ast.Name)}):
+                d_ = _sd(fi.node, nm_)
+                if isinstance(d_, ast.Call) and isinstance(d_.func, ast.Attribute) and d_.func.attr == "get" and d_.args and try_const(ctx, fi, d_.args[0]) in want:
+                    key, var = try_const(ctx, fi, d_.args[0]), nm_
         if key not in want or var is None:
             res.inst(fi.fq, short(n), "fail")
             res.fail(Finding("R-FIELDS", fi.module.rel, fi.qualname, norm(n), f"optional token `{lead}…` is not tied to one of chg / rad / mass", line=n.lineno))
